@@ -110,6 +110,11 @@ func runCase(c *vt.Ctx, kt *kernel.Thread, cs Case) *vt.Deviation {
 					c.Excluded("sysctl:protected_hardlinks")
 					continue
 				}
+			} else if r != nil && r.Type == "d" && r.Uid != ids[a.User].Uid {
+				// the same sysctl refuses (EPERM) any source that is not a regular file unless the
+				// caller owns it, before the new directory is looked at
+				c.Excluded("sysctl:protected_hardlinks")
+				continue
 			}
 		}
 		if a.Op.K == "RemoveAll" && a.User != "root" {
@@ -237,7 +242,7 @@ func calls() []fsx.Op {
 		{K: "Mkdir", P: d2 + "/newdir", Perm: 0o777}, {K: "MkdirAll", P: d2 + "/n1/n2", Perm: 0o755},
 		{K: "Remove", P: leaf}, {K: "Remove", P: d2}, {K: "RemoveAll", P: leaf},
 		{K: "Rename", P: leaf, P2: d2 + "/g"}, {K: "Rename", P: leaf, P2: e1 + "/g"}, {K: "Rename", P: d2, P2: e1 + "/moved"},
-		{K: "Link", P: leaf, P2: e1 + "/hl"}, {K: "Link", P: leaf, P2: d2 + "/hl"}, {K: "Symlink", P: "f", P2: d2 + "/sl"},
+		{K: "Link", P: leaf, P2: e1 + "/hl"}, {K: "Link", P: leaf, P2: d2 + "/hl"}, {K: "Link", P: d2, P2: e1 + "/dl"}, {K: "Link", P: e1, P2: d2 + "/dl"}, {K: "Symlink", P: "f", P2: d2 + "/sl"},
 		// the file holds 4 bytes: shorter, empty, the same size (nothing to change is still a write), longer
 		{K: "Truncate", P: leaf, Size: 1}, {K: "Truncate", P: leaf, Size: 0}, {K: "Truncate", P: leaf, Size: 4}, {K: "Truncate", P: leaf, Size: 9},
 		// a directory that is not empty: RemoveAll must list it (read), empty it (write, search) and unlink it from its parent
